@@ -271,6 +271,46 @@ impl Engine for RecSim {
     }
     fn run_case(&self, seed: u64, idx: u64, tier: &str, acc: &mut Acc) -> u64 {
         acc.inc("evaluations.cases");
+        if idx % 25 == 10 {
+            // output types other than the generated grammars' value type (see rectypes.rs)
+            let mut rng = Rng::for_case(seed, "rectypes", idx);
+            acc.inc("cases.output_type_replica");
+            let mut d = 0x7e57u64;
+            for _ in 0..4 {
+                let ty = rng.below(crate::rectypes::N_TYPES as u64) as u8;
+                let depth = if rng.chance(1, 6) { rng.range(13, 40) as usize } else { rng.range(0, 12) as usize };
+                let damage = if rng.chance(1, 2) { 0 } else { rng.range(1, 3) as u8 };
+                let input = crate::rectypes::gen_input(&mut rng, depth, damage);
+                let life = rng.pick(&[Life::Value, Life::CloneDropOriginal, Life::Reboxed, Life::Twice]).clone();
+                d = fold(d, fold_bytes(ty as u64, &input));
+                acc.inc(&format!("replica_runs.output_type.{}", crate::rectypes::TYPE_NAMES[ty as usize]));
+                acc.add("evaluations.comparisons_with_unrolling", 4);
+                match crate::rectypes::check(ty, &input, &life) {
+                    Err(h) => {
+                        acc.inc("HARNESS.rectypes_problem");
+                        eprintln!("harness: recsim output-type case {}: {}", idx, h);
+                        return d;
+                    }
+                    Ok(Some((class, exp, obs))) => {
+                        let shown = String::from_utf8_lossy(&input).to_string();
+                        acc.violations.push(Violation {
+                            property: "C12".into(),
+                            engine: "recsim".into(),
+                            seed,
+                            case: idx,
+                            class: class.clone(),
+                            summary: format!("{} output type {} input={:?} lifecycle={:?} unrolled={} recursive={}", class, crate::rectypes::TYPE_NAMES[ty as usize], shown, life, exp, obs),
+                            replay: json!({"engine": "recsim", "property": "C12", "seed": seed, "case": idx, "class": class, "rectypes": {"ty": ty, "type_name": crate::rectypes::TYPE_NAMES[ty as usize], "input": shown, "life": life}, "expected": exp, "observed": obs}),
+                        });
+                        return d;
+                    }
+                    Ok(None) => {}
+                }
+            }
+            acc.distinct("cases", d);
+            acc.distinct("nontrivial_cases", d);
+            return d;
+        }
         if idx % 4 == 3 {
             // token-tree recursion through nested_in
             let c = tree::gen(seed, idx, tier);
